@@ -30,6 +30,8 @@ type Class struct {
 	Outs         []int   // fmape, joine, bind, traverse: non-error result types
 	LastExpr     string  // apply: Go source of the pre-bound argument when it is not a typed value built from the op line
 	LastPayload  int     // apply: the payload that expression denotes
+	ErrTy        string  // "" = the predeclared error; else a key of ErrTypes used in place of `error` …
+	ErrAt        string  // … "result": last result of the (first) stage function; "arg": the error VALUE given to join / toerror
 	Split        bool    // bind: `fn, e := deriveFmap(f, g)` observed before `deriveJoin(fn, e)` (else the nested call)
 }
 
@@ -72,6 +74,42 @@ func wireInts(head string, ns []int) string {
 
 // SigWire is the description of the class in an op line (after the cfg part).
 func (c *Class) SigWire() string {
+	if c.ErrTy != "" {
+		return c.sigWire() + " (errty " + c.ErrTy + " " + c.ErrAt + ")"
+	}
+	return c.sigWire()
+}
+
+// errGo is the Go type written where `error` would be at position pos ("result" | "arg").
+func (c *Class) errGo(pos string) string {
+	if c.ErrTy != "" && c.ErrAt == pos {
+		return ErrTypes[c.ErrTy].Go
+	}
+	return "error"
+}
+
+// errRet is the error expression a stage function returns: custom result types have no failing value.
+func (c *Class) errRet(stage int, custom bool) string {
+	if custom && c.ErrTy != "" && c.ErrAt == "result" {
+		return ErrTypes[c.ErrTy].Zero
+	}
+	return fmt.Sprintf("failErr(%d)", stage)
+}
+
+// errArg is the statement list declaring `e`, the error value number in["<key>"][0] (or "no error").
+func (c *Class) errArg(key string) string {
+	if c.ErrTy != "" && c.ErrAt == "arg" {
+		t := ErrTypes[c.ErrTy]
+		s := fmt.Sprintf("\tvar e %s = %s\n", t.Go, t.Zero)
+		if t.Val != "" {
+			s += fmt.Sprintf("\tif len(in[%q]) == 1 {\n\t\te = "+t.Val+"\n\t}\n", key, fmt.Sprintf("in[%q][0]", key))
+		}
+		return s
+	}
+	return fmt.Sprintf("\tvar e error\n\tif len(in[%q]) == 1 {\n\t\te = errOf(9, in[%q][0])\n\t}\n", key, key)
+}
+
+func (c *Class) sigWire() string {
 	switch c.Kind {
 	case "curry", "flip", "apply", "uncurrycurry":
 		return wireParams("ps", c.Ps) + " " + wireTys("rs", c.Rs)
@@ -105,6 +143,17 @@ func (c *Class) SigWire() string {
 
 // GoSig is a readable rendering of the class (the derive call and the signature it is applied to).
 func (c *Class) GoSig() string {
+	if c.ErrTy != "" {
+		where := "as the last result of the first function"
+		if c.ErrAt == "arg" {
+			where = "as the error value"
+		}
+		return c.goSig() + " with " + ErrTypes[c.ErrTy].Go + " " + where
+	}
+	return c.goSig()
+}
+
+func (c *Class) goSig() string {
 	sig := func(ps []Param, rs []int, extra string) string {
 		return "func(" + goParams(ps) + ")" + goResults(rs, extra)
 	}
@@ -326,15 +375,19 @@ func (c *Class) Source() string {
 		names := make([]string, len(c.Stages))
 		for i, outs := range c.Stages {
 			names[i] = fmt.Sprintf("F%d", i)
-			w("func F%d(%s)%s {\n\ta := %s\n\tlogStage(%d, a)\n\treturn %s\n}\n\n", i, implParams(in, 0), goResults(outs, "error"),
-				obsList(in, 0), i, strings.Join(append(mkResults(outs, fmt.Sprint(i)), fmt.Sprintf("failErr(%d)", i)), ", "))
+			et := "error"
+			if i == 0 {
+				et = c.errGo("result")
+			}
+			w("func F%d(%s)%s {\n\ta := %s\n\tlogStage(%d, a)\n\treturn %s\n}\n\n", i, implParams(in, 0), goResults(outs, et),
+				obsList(in, 0), i, strings.Join(append(mkResults(outs, fmt.Sprint(i)), c.errRet(i, i == 0)), ", "))
 			in = outs
 		}
 		last := c.Stages[len(c.Stages)-1]
 		runFn(fmt.Sprintf("\tw := deriveCompose(%s)\n", strings.Join(names, ", ")), append(rvars(len(last)), "err"),
 			fmt.Sprintf("w(%s)", strings.Join(mkArgs(c.Ins, 0), ", ")), "outcomeE("+obsVars(last)+", err)")
 	case "fmape":
-		w("func G()%s {\n\ta := []int{}\n\tlogStage(0, a)\n\treturn mk%d(hh(0, 0, a)), failErr(0)\n}\n\n", goResults([]int{c.In}, "error"), c.In)
+		w("func G()%s {\n\ta := []int{}\n\tlogStage(0, a)\n\treturn mk%d(hh(0, 0, a)), %s\n}\n\n", goResults([]int{c.In}, c.errGo("result")), c.In, c.errRet(0, true))
 		w("func F(x0 %s)%s {\n\ta := %s\n\tlogStage(1, a)\n", Types[c.In].Go, goResults(c.Outs, ""), obsList([]int{c.In}, 0))
 		if len(c.Outs) > 0 {
 			w("\treturn %s\n", strings.Join(mkResults(c.Outs, "1"), ", "))
@@ -351,9 +404,9 @@ func (c *Class) Source() string {
 				rvars(len(c.Outs)), "w()", "outcomeE("+obsVars(c.Outs)+", err)")
 		}
 	case "joine":
-		w("func F()%s {\n\ta := []int{}\n\tlogStage(1, a)\n\treturn %s\n}\n", goResults(c.Outs, "error"),
-			strings.Join(append(mkResults(c.Outs, "1"), "failErr(1)"), ", "))
-		run(fmt.Sprintf("\tvar e error\n\tif len(in[\"errin\"]) == 1 {\n\t\te = errOf(9, in[\"errin\"][0])\n\t}\n\t%s\n\treturn outcomeE(%s, err)\n",
+		w("func F()%s {\n\ta := []int{}\n\tlogStage(1, a)\n\treturn %s\n}\n", goResults(c.Outs, c.errGo("result")),
+			strings.Join(append(mkResults(c.Outs, "1"), c.errRet(1, true)), ", "))
+		run(fmt.Sprintf("%s\t%s\n\treturn outcomeE(%s, err)\n", c.errArg("errin"),
 			assign(append(rvars(len(c.Outs)), "err"), "deriveJoin(F, e)"), obsVars(c.Outs)))
 	case "bind":
 		w("func G()%s {\n\ta := []int{}\n\tlogStage(0, a)\n\treturn mk%d(hh(0, 0, a)), failErr(0)\n}\n\n", goResults([]int{c.In}, "error"), c.In)
@@ -368,8 +421,13 @@ func (c *Class) Source() string {
 		out := c.Outs[0]
 		w("var calls int\n\n")
 		w("// F fails on its call number Fail[0] (counted from 0) with error number Fail[1].\n")
-		w("func F(x0 %s) (%s, error) {\n\ta := %s\n\ti := calls\n\tcalls++\n\tlogStage(i, a)\n\tvar err error\n\tif len(Fail) == 2 && Fail[0] == i {\n\t\terr = errOf(0, Fail[1])\n\t}\n\treturn mk%d(hh(0, 0, a)), err\n}\n",
-			Types[c.In].Go, Types[out].Go, obsList([]int{c.In}, 0), out)
+		if c.ErrTy != "" {
+			w("func F(x0 %s) (%s, %s) {\n\ta := %s\n\ti := calls\n\tcalls++\n\tlogStage(i, a)\n\treturn mk%d(hh(0, 0, a)), %s\n}\n",
+				Types[c.In].Go, Types[out].Go, c.errGo("result"), obsList([]int{c.In}, 0), out, c.errRet(0, true))
+		} else {
+			w("func F(x0 %s) (%s, error) {\n\ta := %s\n\ti := calls\n\tcalls++\n\tlogStage(i, a)\n\tvar err error\n\tif len(Fail) == 2 && Fail[0] == i {\n\t\terr = errOf(0, Fail[1])\n\t}\n\treturn mk%d(hh(0, 0, a)), err\n}\n",
+				Types[c.In].Go, Types[out].Go, obsList([]int{c.In}, 0), out)
+		}
 		run(fmt.Sprintf("\tcalls = 0\n\tvar list []%s\n\tif l, ok := in[\"list\"]; ok {\n\t\tlist = make([]%s, 0, len(l))\n\t\tfor _, n := range l {\n\t\t\tlist = append(list, mk%d(n))\n\t\t}\n\t}\n"+
 			"\tout, err := deriveTraverse(F, list)\n\tobs := make([]int, len(out))\n\tfor i, r0 := range out {\n\t\tobs[i] = ob%d(r0)\n\t}\n\treturn outcomeT(out == nil, obs, err)\n",
 			Types[c.In].Go, Types[c.In].Go, c.In, out))
@@ -378,7 +436,7 @@ func (c *Class) Source() string {
 		w("var F func(%s)%s = fImpl\n\n", goParams(c.Ps), goResults(c.Rs, "bool"))
 		w("func fImpl(%s)%s {\n\ta := %s\n\tlogStage(0, a)\n\treturn %s\n}\n", implParams(ts, 0), goResults(c.Rs, "bool"), obsList(ts, 0),
 			strings.Join(append(mkResults(c.Rs, "0"), "Ok"), ", "))
-		runFn("\tOk = in[\"ok\"][0] != 0\n\tw := deriveToError(errOf(9, in[\"err\"][0]), F)\n", append(rvars(len(c.Rs)), "err"),
+		runFn("\tOk = in[\"ok\"][0] != 0\n"+c.errArg("err")+"\tw := deriveToError(e, F)\n", append(rvars(len(c.Rs)), "err"),
 			fmt.Sprintf("w(%s)", strings.Join(mkArgs(ts, 0), ", ")), "outcomeE("+obsVars(c.Rs)+", err)")
 	default:
 		panic("kind " + c.Kind)
@@ -418,6 +476,29 @@ func (c *Class) Ops(rng *rand.Rand, cfg string, nargs int) []string {
 	head := fmt.Sprintf("%s %s %s %s", c.Kind, c.Pkg, cfg, c.SigWire())
 	var out []string
 	add := func(parts ...string) { out = append(out, head+" "+strings.Join(parts, " ")) }
+	if c.ErrTy != "" {
+		// behaviour only where a custom error VALUE is handed over (the other classes are about accept /
+		// refuse / compile): it cannot be made to fail on demand, and a struct error has no "no error"
+		t := ErrTypes[c.ErrTy]
+		if c.ErrAt != "arg" || t.Val == "" {
+			return nil
+		}
+		switch c.Kind {
+		case "joine":
+			if c.ErrTy == "errs" {
+				add("(errin)", "(fail)") // the nil custom error: "no error"
+			}
+			add("(errin 0)", "(fail)")
+			add("(errin 1)", "(fail 1 0)")
+		case "toerror":
+			for i := 0; i < 2; i++ {
+				args := wireInts("args", payloads(rng, ptys(c.Ps)))
+				add(args, "(ok 1)", wireInts("err", []int{i}))
+				add(args, "(ok 0)", wireInts("err", []int{i}))
+			}
+		}
+		return out
+	}
 	switch c.Kind {
 	case "curry", "flip", "apply", "uncurrycurry":
 		for i := 0; i < nargs; i++ {
